@@ -28,7 +28,7 @@ from typing import Any, List, Optional, NamedTuple
 
 from .exception import MementoException
 from .logging import log
-from .metadata import Memento
+from .metadata import Memento, ResultType
 from .storage import StorageBackend
 from .context import InvocationContext
 from .reference import FunctionReferenceWithArguments
@@ -65,8 +65,12 @@ def process_existing_memento(
     fn_reference_with_args = existing_memento.invocation_metadata.fn_reference_with_args
 
     try:
-        # If result already exists, deserialize and return
-        if ignore_result:
+        # If result already exists, deserialize and return. A memoized exception is
+        # raised again even if the result is ignored, like one raised by a fresh run.
+        if (
+            ignore_result
+            and existing_memento.invocation_metadata.result_type != ResultType.exception
+        ):
             log.debug(
                 "Result of {} was already memoized and is ignored".format(
                     str(fn_reference_with_args)
